@@ -152,6 +152,9 @@ func (c *FnCtx) instr(ins ssa.Instruction) {
 	case *ssa.Lookup:
 		c.lookup(x)
 	case *ssa.MakeChan:
+		sz := c.v(x.Size)
+		sz.GT = types.Typ[types.Int]
+		c.callsiteObligationsNamed("make(chan)", "make(chan)", nil, nil, []Val{sz}, x.Pos())
 		c.bind(x, Val{T: c.allocRef("chan"), S: SInt, GT: x.Type()})
 	case *ssa.MakeClosure:
 		fn := x.Fn.(*ssa.Function)
@@ -325,6 +328,7 @@ func (c *FnCtx) unop(x *ssa.UnOp) {
 		}
 		v := c.define(x, c.loadPlace(pl), pl.Sort)
 		c.valFacts(v.T, v.S, x.Type())
+		c.oldRowFacts(pl, v, x.Type())
 		if pl.Kind == PGlobal && len(pl.Path) == 0 {
 			if ti := c.E.tables[pl.Name]; ti != nil {
 				v.Table = ti
@@ -849,4 +853,48 @@ var _ = strings.Join
 // obliged wherever a value is stored into a tree or passed to a function.
 func (c *FnCtx) wfSink(term, what string, pos token.Pos) {
 	c.oblige("nilbox", fmt.Sprintf("(=> ((_ is a_map) %s) (not (= (a_m %s) 0)))", term, term), what, pos)
+}
+
+// oldRowFacts: a reference read from a row that already existed when the heap class was last havocked by a
+// call that writes only fresh rows is not younger than that call (heap well-formedness: the contents of a
+// heap version never mention objects allocated after the version was made). Walks up to 4 such havocs.
+func (c *FnCtx) oldRowFacts(pl *Place, v Val, gt types.Type) {
+	if pl.Kind != PStructPtr || pl.Ref == "" || len(pl.Path) != 1 {
+		return
+	}
+	var ref string
+	switch types.Unalias(gt).Underlying().(type) {
+	case *types.Pointer, *types.Map, *types.Chan:
+		if v.S != SInt {
+			return
+		}
+		ref = v.T
+	case *types.Slice:
+		if v.S != SSlice {
+			return
+		}
+		ref = "(s_ref " + v.T + ")"
+	default:
+		return
+	}
+	si := c.M.Struct(pl.BaseSort)
+	if si == nil {
+		return
+	}
+	hn := "HF|" + si.Name + "|" + fmtPath(pl.Path)
+	cur, ok := c.st[hn]
+	if !ok {
+		return
+	}
+	if w, ok := c.hwm[cur]; ok {
+		c.fact(fmt.Sprintf("(<= %s %s)", ref, w))
+	}
+	for d := 0; d < 4; d++ {
+		par, ok := c.hparent[cur]
+		if !ok {
+			return
+		}
+		c.fact(fmt.Sprintf("(=> (<= %s %s) (<= %s %s))", pl.Ref, par.wm, ref, par.wm))
+		cur = par.old
+	}
 }
